@@ -1,4 +1,5 @@
 import MimeModel.Model.MediaType
+import MimeModel.Lemmas.MediaType
 import MimeModel.Model.Tree
 import MimeModel.Gen.Tree
 /-
@@ -36,5 +37,148 @@ theorem equalsAny_by_type (s s' : Bytes) (ms : List Bytes) (h : typeOf s = typeO
 theorem is_iff (i : Info) (hn : typeOf i.mime = i.mime) (s : Bytes) :
     isM i s = true ↔ typeOf s = i.mime ∨ typeOf s ∈ i.aliases := by
   simp [isM, hn]
+
+/-! ### decorations -/
+
+theorem lower_append (a b : Bytes) : lower (a ++ b) = lower a ++ lower b := by simp [lower]
+
+theorem lower_sp (w : Bytes) (h : ∀ c ∈ w, isSp c = true) : lower w = w := by
+  apply lower_id
+  intro c hc hcase
+  have := h c hc
+  simp only [isSp, Bool.or_eq_true, beq_iff_eq] at this
+  omega
+
+theorem trim_pad (w1 m w2 : Bytes) (h1 : ∀ c ∈ w1, isSp c = true) (h2 : ∀ c ∈ w2, isSp c = true) (hne : m ≠ [])
+    (hh : ∀ c ∈ m.head?, isSp c = false) (hl : ∀ c ∈ m.getLast?, isSp c = false) :
+    trim (w1 ++ m ++ w2) = m := by
+  unfold trim
+  rw [List.append_assoc, List.dropWhile_append_of_pos h1]
+  have e1 : (m ++ w2).dropWhile isSp = m ++ w2 := by
+    apply dropWhile_none
+    intro c hc
+    cases m with
+    | nil => exact absurd rfl hne
+    | cons x xs => simp at hc; subst hc; exact hh _ (by simp)
+  rw [e1, List.reverse_append, List.dropWhile_append_of_pos (fun c hc => h2 c (List.mem_reverse.mp hc))]
+  rw [dropWhile_none isSp m.reverse (by simpa using hl)]
+  simp
+
+/-- the type part of a decorated name: optional blanks, the name in any letter case, optional blanks -/
+theorem no_semi_of_lower (t m : Bytes) (h : lower t = m) (hm : ∀ c ∈ m, c ≠ 0x3B) : ∀ c ∈ t, c ≠ 0x3B := by
+  intro c hc e
+  subst e
+  have : (0x3B : Nat) ∈ m := by
+    rw [← h]
+    simp only [lower, List.mem_map]
+    exact ⟨0x3B, hc, by decide⟩
+  exact hm _ this rfl
+
+theorem sp_not_semi (w : Bytes) (h : ∀ c ∈ w, isSp c = true) : ∀ c ∈ w, c ≠ 0x3B := by
+  intro c hc e
+  subst e
+  have := h _ hc
+  simp [isSp] at this
+
+/-- **decorations do not matter**: blanks around the name, any letter case, and any parameter
+    list that `ParseMediaType` does not reject as a duplicate leave the normalised type unchanged -/
+theorem typeOf_decorated (m maj sub t w1 w2 rest : Bytes) (hm : TypeOK m maj sub) (ht : lower t = m)
+    (h1 : ∀ c ∈ w1, isSp c = true) (h2 : ∀ c ∈ w2, isSp c = true)
+    (hrest : rest = [] ∨ ∃ r, rest = 0x3B :: r) :
+    typeOf (w1 ++ t ++ w2 ++ rest) = m ∨ (parse (w1 ++ t ++ w2 ++ rest)).2.2 = .duplicate := by
+  obtain ⟨n1, t1⟩ := token_chars maj hm.tmaj
+  obtain ⟨n2, t2⟩ := token_chars sub hm.tsub
+  have hmj := cutSlash_join m maj sub hm.cut
+  have hsemi : ∀ c ∈ m, c ≠ 0x3B := by
+    intro c hc e
+    subst e
+    rw [hmj] at hc
+    rcases List.mem_append.mp hc with h | h
+    · exact absurd (t1 _ h) (by decide)
+    · rcases List.mem_cons.mp h with h | h
+      · cases h
+      · exact absurd (t2 _ h) (by decide)
+  have hmne : m ≠ [] := by rw [hmj]; cases maj <;> simp_all
+  have hhead : ∀ c ∈ m.head?, isSp c = false := by
+    intro c hc
+    rw [hmj] at hc
+    cases maj with
+    | nil => exact absurd rfl n1
+    | cons x xs => simp at hc; subst hc; exact isTokenChar_not_sp _ (t1 _ (List.mem_cons_self ..))
+  have hlast : ∀ c ∈ m.getLast?, isSp c = false := by
+    intro c hc
+    rw [hmj] at hc
+    have hs : sub.getLast? = some c := by
+      cases sub with
+      | nil => exact absurd rfl n2
+      | cons y ys => simpa [List.getLast?_append, List.getLast?_cons_cons] using hc
+    exact isTokenChar_not_sp _ (t2 _ (List.mem_of_getLast? hs))
+  have hbase : ∀ c ∈ w1 ++ t ++ w2, c ≠ 0x3B := by
+    intro c hc
+    simp only [List.mem_append] at hc
+    rcases hc with (hc | hc) | hc
+    · exact sp_not_semi w1 h1 c hc
+    · exact no_semi_of_lower t m ht hsemi c hc
+    · exact sp_not_semi w2 h2 c hc
+  have hmt : trim (lower (w1 ++ t ++ w2)) = m := by
+    rw [lower_append, lower_append, lower_sp w1 h1, lower_sp w2 h2, ht]
+    exact trim_pad w1 m w2 h1 h2 hmne hhead hlast
+  unfold typeOf parse
+  rcases hrest with rfl | ⟨r, rfl⟩
+  · -- no parameters
+    have hcut : cutSemi (w1 ++ t ++ w2 ++ []) = (w1 ++ t ++ w2, []) := by
+      rw [List.append_nil]
+      generalize w1 ++ t ++ w2 = a at hbase
+      induction a with
+      | nil => rfl
+      | cons c cs ih =>
+        have hc : (c == 0x3B) = false := by simpa using hbase c (List.mem_cons_self ..)
+        simp only [cutSemi, hc, Bool.false_eq_true, ↓reduceIte, ih (fun x hx => hbase x (List.mem_cons_of_mem _ hx))]
+    rw [hcut]
+    simp only [hmt, checkType_ok m maj sub hm, Bool.not_true, Bool.false_eq_true, ↓reduceIte, parseParams_nil]
+    left; trivial
+  · rw [cutSemi_app _ _ hbase]
+    simp only [hmt, checkType_ok m maj sub hm, Bool.not_true, Bool.false_eq_true, ↓reduceIte]
+    generalize parseParams _ (0x3B :: r) [] = pp
+    obtain ⟨e, ps⟩ := pp
+    cases e with
+    | none => left; rfl
+    | invalidParam => left; rfl
+    | noType => left; rfl
+    | duplicate => right; rfl
+
+/-- Bool version of `TypeOK` -/
+def typeOKb (m : Bytes) : Bool :=
+  match cutSlash m with
+  | some (a, b) => isToken a && isToken b && lower a == a && lower b == b
+  | none => false
+
+theorem typeOK_of_b (m : Bytes) (h : typeOKb m = true) : ∃ maj sub, TypeOK m maj sub := by
+  unfold typeOKb at h
+  cases hc : cutSlash m with
+  | none => simp [hc] at h
+  | some p =>
+    obtain ⟨a, b⟩ := p
+    simp only [hc, Bool.and_eq_true, beq_iff_eq] at h
+    exact ⟨a, b, ⟨hc, h.1.1.1, h.1.1.2, h.1.2, h.2⟩⟩
+
+/-- **regenerated obligation**: every registered type and alias is a lower-case `token/token` -/
+theorem registered_typeOK :
+    Gen.builtin.flatten.all (fun i => (i.mime :: i.aliases).all typeOKb) = true := by
+  decide +kernel
+
+/-- **C15 (decorations)**: for every registered type or alias `n`: surrounding blanks, any letter
+    case of the name and any parameter list that `ParseMediaType` does not reject as a duplicate
+    normalise to `n`, so `Is` / `EqualsAny` answer as for the bare name -/
+theorem registered_decorated (i : Info) (hi : i ∈ Gen.builtin.flatten) (n : Bytes) (hn : n ∈ i.mime :: i.aliases)
+    (t w1 w2 rest : Bytes) (ht : lower t = n)
+    (h1 : ∀ c ∈ w1, isSp c = true) (h2 : ∀ c ∈ w2, isSp c = true) (hrest : rest = [] ∨ ∃ r, rest = 0x3B :: r) :
+    typeOf (w1 ++ t ++ w2 ++ rest) = n ∨ (parse (w1 ++ t ++ w2 ++ rest)).2.2 = .duplicate := by
+  have hall := registered_typeOK
+  rw [List.all_eq_true] at hall
+  have h1' := hall i hi
+  rw [List.all_eq_true] at h1'
+  obtain ⟨maj, sub, hok⟩ := typeOK_of_b n (h1' n hn)
+  exact typeOf_decorated n maj sub t w1 w2 rest hok ht h1 h2 hrest
 
 end Mime.C15
